@@ -108,3 +108,107 @@ Proof.
     split; [exact Hgd|]. exists k0. split; [exact Hld|apply Nat.le_refl].
   - exists ops1, p, ops2. split; [exact E1|]. split; [exact E2|]. split; [exact E3|]. cbn zeta. split; [exact E4|]. split; [exact E5|exact E6].
 Qed.
+
+(* ---- the future form from every reachable state (wait_until_returns of LivePass.v starts at the fresh combinator) ---- *)
+Theorem wait_until_returns_from d i ops0 ops k0 k1 : goodf d = true -> goodf i = true -> lead d = Some k0 -> lead i = Some k1 -> sched ops0 -> sched ops ->
+  let w := wait_world false [d; i] ops0 in finished _ w = false -> k0 + k1 < npolls ops ->
+  exists ops1 p ops2, ops = ops1 ++ p :: ops2 /\ is_poll p = true /\ npolls ops1 <= k0 + k1 /\
+    let w1 := p_world ust wait_poll u_drops w ops1 in
+    finished _ w1 = false /\ dropped _ w1 = false /\ returns ust w1 (p_step ust wait_poll u_drops w1 p).
+Proof.
+  intros Hgd Hgi Hld Hli Hs0 Hs w Hf Hk. unfold w, wait_world in *. fold (wait_w0 [d; i]) in *.
+  destruct (pass_next ust wait_poll u_drops I_wait wait_poll_live (k0 + k1) (wait_w0 [d; i]) ops0 ops Hs0 Hs) as (ops1 & p & ops2 & E1 & E2 & E3 & E4 & E5 & E6 & E7);
+    [|exact Hf|exact Hk|].
+  - unfold Good. split; [reflexivity|]. right. exists (k0 + k1). split; [apply Nat.le_refl|].
+    unfold wait_w0, I_wait. cbn [cs scripts mk_world u_stream u_started nth]. split; [reflexivity|]. split; [exact Hgi|]. exists k1. split; [exact Hli|].
+    split; [exact Hgd|]. exists k0. split; [exact Hld|apply Nat.le_refl].
+  - exists ops1, p, ops2. split; [exact E1|]. split; [exact E2|]. split; [exact E3|]. cbn zeta. split; [exact E4|]. split; [exact E5|exact E6].
+Qed.
+
+(* ---- the stream form ENDS: the bound counts the deadline's Pending answers plus every Pending and Item answer of the inner stream ---- *)
+Definition I_waite (b: nat) (s: ust) (sc: list (list step)) : Prop :=
+  u_stream s = true /\ goods (nth 1 sc []) = true /\
+  if u_started s then steps_before_end (nth 1 sc []) <= b
+  else goodf (nth 0 sc []) = true /\ exists k0, lead (nth 0 sc []) = Some k0 /\ k0 + steps_before_end (nth 1 sc []) <= b.
+
+Lemma poll_direct_steps {St} (w: W St) m pid : goods (nth m (scripts St w) []) = true ->
+  let '(w', a) := poll_direct St w m pid in
+  ((a = APend \/ exists v, a = AItem v) /\ goods (nth m (scripts St w') []) = true /\
+     steps_before_end (nth m (scripts St w) []) = S (steps_before_end (nth m (scripts St w') []))) \/
+  a = AEnd.
+Proof.
+  intros Hg. pose proof (poll_direct_live w m pid) as H. destruct (poll_direct St w m pid) as [w' a]. destruct H as (_ & _ & _ & _ & _ & E).
+  destruct (nth m (scripts St w) []) as [|x rest] eqn:En; [discriminate|]. destruct E as [-> E]. cbn [goods steps_before_end] in Hg |- *.
+  assert (Hm : m < length (scripts St w)) by (destruct (Nat.lt_ge_cases m (length (scripts St w))); auto; rewrite nth_overflow in En by assumption; discriminate).
+  destruct (answer x) as [|r|v| |]; try discriminate.
+  - left. rewrite E, nth_upd_same by exact Hm. auto.
+  - left. rewrite E, nth_upd_same by exact Hm. split; [right; exists v; reflexivity|auto].
+  - right. reflexivity.
+Qed.
+
+Lemma waits_poll_ends : forall b (w: W ust) pid np, I_waite b (cs _ w) (scripts _ w) -> finished _ w = false -> dropped _ w = false ->
+  let w' := wait_poll w pid np in dropped _ w' = false /\
+  (finished _ w' = true \/ (finished _ w' = false /\ exists b', b' < b /\ I_waite b' (cs _ w') (scripts _ w'))).
+Proof.
+  intros b w pid np (Hs & Hg1 & Hb) Hf Hd. unfold wait_poll.
+  set (w0 := begin_p ust w pid np).
+  assert (H0 : cs _ w0 = cs _ w /\ scripts _ w0 = scripts _ w /\ finished _ w0 = false /\ dropped _ w0 = false) by (unfold w0, begin_p; cbn; auto).
+  destruct H0 as (C0 & S0 & F0 & D0). rewrite C0.
+  assert (Hinner : forall (w1: W ust) late, nth 1 (scripts _ w1) [] = nth 1 (scripts _ w) [] -> u_stream (cs _ w1) = true -> u_started (cs _ w1) = true ->
+            finished _ w1 = false -> dropped _ w1 = false -> steps_before_end (nth 1 (scripts _ w) []) <= b ->
+            let w' := (let '(w2, a) := poll_direct ust w1 1 pid in
+                       let w3 := emit ust w2 late in
+                       match a with
+                       | AReady (ROk v) | AReady (RErr v) => finish_p ust w3 (OVals [v]) true
+                       | AItem v => finish_p ust w3 (OSome None [v]) false
+                       | AEnd => finish_p ust w3 ONone true
+                       | APanic => unwind_p ust w3 [EDc 1; EDc 0]
+                       | _ => emit ust w3 [EEndP]
+                       end) in
+            dropped _ w' = false /\
+            (finished _ w' = true \/ (finished _ w' = false /\ exists b', b' < b /\ I_waite b' (cs _ w') (scripts _ w')))).
+  { intros w1 late S1 U1 U2 F1 D1 Hk.
+    pose proof (poll_direct_steps w1 1 pid) as HL. rewrite S1 in HL. specialize (HL Hg1).
+    pose proof (poll_direct_live w1 1 pid) as HP. destruct (poll_direct ust w1 1 pid) as [w2 a]. destruct HP as (A & B & C & _ & _ & _).
+    destruct HL as [([-> | [v ->]] & Hg' & Hp')| ->].
+    - cbn [finished dropped emit cs scripts]. split; [congruence|]. right. split; [congruence|].
+      exists (steps_before_end (nth 1 (scripts ust w2) [])). split; [lia|]. unfold I_waite. rewrite A, U1, U2. split; [reflexivity|]. split; [exact Hg'|]. apply Nat.le_refl.
+    - unfold finish_p. cbn [finished dropped set_flags emit cs scripts]. split; [congruence|]. right. split; [congruence|].
+      exists (steps_before_end (nth 1 (scripts ust w2) [])). split; [lia|]. unfold I_waite. rewrite A, U1, U2. split; [reflexivity|]. split; [exact Hg'|]. apply Nat.le_refl.
+    - unfold finish_p. cbn [finished dropped set_flags emit]. split; [congruence|left; reflexivity]. }
+  destruct (u_started (cs ust w)) eqn:Est.
+  - apply (Hinner w0 []).
+    + rewrite S0. reflexivity.
+    + rewrite C0. exact Hs.
+    + rewrite C0. exact Est.
+    + exact F0.
+    + exact D0.
+    + exact Hb.
+  - destruct Hb as (Hg0 & k0 & Hl0 & Hb).
+    pose proof (poll_direct_lead w0 0 pid k0) as HL. rewrite S0 in HL. specialize (HL Hg0 Hl0).
+    pose proof (poll_direct_other w0 0 pid 1 ltac:(lia)) as Ho. rewrite S0 in Ho.
+    pose proof (poll_direct_live w0 0 pid) as HP. destruct (poll_direct ust w0 0 pid) as [w1 a]. destruct HP as (A & B & C & _ & _ & _). cbn [fst] in Ho.
+    destruct k0 as [|k0'].
+    + destruct HL as [r ->]. rewrite Hs.
+      assert (X : let w2 := set_cs ust w1 {| u_stream := true; u_started := true |} in
+                nth 1 (scripts _ w2) [] = nth 1 (scripts _ w) [] /\ u_stream (cs _ w2) = true /\ u_started (cs _ w2) = true /\
+                finished _ w2 = false /\ dropped _ w2 = false).
+      { intros w2. unfold w2. cbn [scripts cs emit set_cs tr finished dropped u_stream u_started]. split; [exact Ho|]. split; [reflexivity|]. split; [reflexivity|].
+        split; congruence. }
+      destruct X as (X1 & X2 & X3 & X5 & X6).
+      destruct r as [v|v]; apply (Hinner _ [EV v] X1 X2 X3 X5 X6); lia.
+    + destruct HL as (-> & Hg' & Hl'). cbn [finished dropped emit cs scripts]. split; [congruence|]. right. split; [congruence|].
+      exists (k0' + steps_before_end (nth 1 (scripts ust w) [])). split; [lia|]. unfold I_waite. rewrite A, C0, Hs, Est. split; [reflexivity|]. rewrite Ho. split; [exact Hg1|].
+      split; [exact Hg'|]. exists k0'. split; [exact Hl'|lia].
+Qed.
+
+(* the stream form of wait_until ends: under EVERY schedule of waker invocations and polls with more than k0 + s polls - k0 the deadline's Pending answers,
+   s the Pending and Item answers the inner stream has scripted before its End - the stream has returned None (and C19_wait_until_gate says what came before) *)
+Theorem wait_until_stream_ends d i ops k0 : goodf d = true -> goods i = true -> lead d = Some k0 -> sched ops -> k0 + steps_before_end i < npolls ops ->
+  let w := wait_world true [d; i] ops in finished _ w = true /\ dropped _ w = false.
+Proof.
+  intros Hgd Hgi Hld Hs Hk. unfold wait_world. fold (waits_w0 [d; i]).
+  apply (pass_finishes ust wait_poll u_drops I_waite waits_poll_ends ops (k0 + steps_before_end i) (waits_w0 [d; i]) Hs); auto.
+  unfold waits_w0, I_waite. cbn [cs scripts mk_world u_stream u_started nth]. split; [reflexivity|]. split; [exact Hgi|].
+  split; [exact Hgd|]. exists k0. split; [exact Hld|apply Nat.le_refl].
+Qed.
